@@ -60,7 +60,7 @@ def nullable_rep(pp, root):
             return nul[id(e.expr)] if e.expr is not None else False
         if isinstance(e, pp.CaselessLiteral) or isinstance(e, pp.Literal):
             return e.match == ""
-        return bool(e.mayReturnEmpty) if not isinstance(e, pp.Token) else False
+        return bool(e.mayReturnEmpty)
 
     changed = True
     while changed:
